@@ -192,6 +192,94 @@ def family(t, sd):
     return items
 
 
+# ------------------------------------------------------------------ macro door
+def macro_items(t):
+    """the two macro-written models of the driver (`vars!`, `constraint!`, `expr!`) over a grid of the numbers they take"""
+    import itertools
+    out = []
+    grid = [(-2.0, 3.0), (0.0, 0.0), (-5.0, -1.0), (0.5, 'inf')] if t == 'quick' else [(-2.0, 3.0), (0.0, 0.0), (-5.0, -1.0), (0.5, 'inf'), ('-inf', 2.0), (-0.5, 0.25), (1e-9, 1e9)]
+    nn = [(0.0, 4.0), (0.5, 'inf'), (2.0, 2.0)]
+    for k in (0, 1):
+        for (a, b), (c, d), (ilo, ihi), (p4, p5), n, dr in itertools.product(grid, nn, [(-3, 4), (0, 1), (2, 2)], [(3.0, -1.5), (0.0, 0.0), (-2.0, -6.0)], (1, 2, 3), ('min', 'max')):
+            if k == 0 and n != 2:
+                continue
+            if t == 'quick' and (len(out) % 3):
+                out.append(None)
+                continue
+            out.append({'k': k, 'p': [a, b, c, d, p4, p5], 'ints': [ilo, ihi], 'n': n, 'dir': dr})
+    return [o for o in out if o]
+
+
+def macro_text(it):
+    def nm(x):
+        if x == 'inf':
+            return 'Infinity'
+        if x == '-inf':
+            return 'MinusInfinity'
+        return textgen.num_text(x)
+    a, b, c, d, p4, p5 = it['p']
+    ilo, ihi = it['ints']
+    if it['k'] == 0:
+        rows = ['c1: x + y <= %s' % nm(p4), 'y - z >= %s' % nm(p5), 'c3: w + u = %s' % nm(p4), 'w >= %s' % nm(p5), 'u <= %s' % nm(p4), 'a -> b', 'imp: a <-> b', 'a or b']
+        obj = 'x + y + z + w + u + a + b'
+        dom = ['a, b as Boolean', 'x as IntegerRange(%d, %d)' % (ilo, ihi), 'y as Real(%s, %s)' % (nm(a), nm(b)), 'z as NonNegativeReal(%s, %s)' % (nm(c), nm(d)), 'w as Real', 'u as NonNegativeReal']
+    else:
+        n = it['n']
+        rows, terms = [], []
+        for i in range(n):
+            rows += ['t_%d >= %s' % (i, nm(p5)), 't_%d + u_%d <= %s' % (i, i, nm(p4)), 'r_%d + q_%d - o_%d <= %s' % (i, i, i, nm(p4)), 's_%d + r_%d >= %s' % (i, i, nm(p5))]
+            terms += ['t_%d' % i, 'u_%d' % i, 's_%d' % i, 'r_%d' % i, 'q_%d' % i, 'o_%d' % i]
+        obj = ' + '.join(terms)
+        lst = lambda v: ', '.join('%s_%d' % (v, i) for i in range(n))
+        dom = ['%s as Real' % lst('t'), '%s as NonNegativeReal' % lst('u'), '%s as Boolean' % lst('s'), '%s as IntegerRange(%d, %d)' % (lst('r'), ilo, ihi),
+               '%s as Real(%s, %s)' % (lst('q'), nm(a), nm(b)), '%s as NonNegativeReal(%s, %s)' % (lst('o'), nm(c), nm(d))]
+    return '%s %s\ns.t.\n    %s\ndefine\n    %s' % (it['dir'], obj, '\n    '.join(rows), '\n    '.join(dom))
+
+
+def macro_work(chunk):
+    zq.reset_stats()
+    jobs = []
+    for it in chunk:
+        jobs.append(dict(it, cmd='macro'))
+        jobs.append({'cmd': 'text', 'src': macro_text(it), 'want': ['type_check']})
+    outs = run_driver(jobs)
+    results = []
+    for i, it in enumerate(chunk):
+        om, ot = outs[2 * i], outs[2 * i + 1]
+        res = {'idx': it['idx'], 'fails': [], 'q': 0, 'unknown': [], 'status': 'ok', 'src': macro_text(it)}
+        lm = (om.get('lin') or {})
+        lt = ((ot.get('model') or {}).get('lin') or {})
+        if om.get('crash') or lm.get('panic'):
+            res['fails'].append({'ob': 'macro-door-panic', 'point': None})
+        elif ('ok' in lm) != ('ok' in lt):
+            # empty integer / real ranges (lo > hi) etc.: both doors must agree on accepting the model
+            res['fails'].append({'ob': 'macro-and-text-doors-disagree-on-acceptance', 'macro': str(lm)[:200], 'text': str(lt or ot)[:200], 'point': None})
+        elif 'ok' in lm:
+            LA, LB = lm['ok'], lt['ok']
+            da, db = dict((n, d) for n, d in LA['vars']), dict((n, d) for n, d in LB['vars'])
+            common_ = [n for n in da if n in db]
+            missing = [n for n in db if n not in da] + [n for n in da if n not in db and not n.startswith('$')]
+            if missing:
+                res['fails'].append({'ob': 'macro-door-variable-set-differs', 'vars': missing, 'point': None})
+            else:
+                bad = c10.equivalent(LA, LB, res, declared=common_)
+                if bad:
+                    res['fails'].append({'ob': 'macro-door-model-differs-from-text', 'direction': bad[0], 'point': bad[1]})
+        else:
+            res['status'] = 'both-reject'
+        results.append(res)
+    return [{'results': results, 'stats': dict(zq.STATS)}]
+
+
+def macro_replay(chunk):
+    out = []
+    for it, f in chunk:
+        r = macro_work([dict(it, idx=0)])[0]['results'][0]
+        same = [x for x in r['fails'] if x['ob'] == f['ob']]
+        out.append((bool(same), {'source': r['src'], 'failure': same[0] if same else None}))
+    return out
+
+
 def replay_fail(it, fail):
     r = work([dict(it, idx=1)])[0]['results'][0]
     same = [f for f in r['fails'] if f['ob'] == fail['ob']]
@@ -240,6 +328,32 @@ def main(prop='C16'):
         confirmed += 1
         classes[f['ob']] = classes.get(f['ob'], 0) + 1
         rep.violation(sig, {'property': 'C16', 'source': it['src'], 'builder_model': it['builder_model'], 'model': it['model'], 'obligation': f['ob'], 'failure': f, 'confirmation': detail})
+    # macro door
+    mitems = macro_items(t)
+    for i, it in enumerate(mitems):
+        it['idx'] = i
+    mparts = parallel(macro_work, mitems, chunk=25)
+    mres = []
+    for p in mparts:
+        mres += p['results']
+        for k in stats:
+            stats[k] += p['stats'][k]
+    mstatus, mtodo = {}, []
+    for r in mres:
+        mstatus[r['status']] = mstatus.get(r['status'], 0) + 1
+        for u in r['unknown']:
+            rep.inconclusive.append({'src': r['src'], 'obligation': u})
+        for f in r['fails']:
+            mtodo.append((mitems[r['idx']], f))
+    mrep = parallel(macro_replay, mtodo, chunk=4) if mtodo else []
+    for (it, f), (ok, detail) in zip(mtodo, mrep):
+        sig = {'stage': 'macro-door', 'obligation': f['ob'], 'job': canon({k: v for k, v in it.items() if k != 'idx'})}
+        if not ok:
+            rep.broken.append({'why': 'did not reproduce', 'sig': sig})
+            continue
+        confirmed += 1
+        classes[f['ob']] = classes.get(f['ob'], 0) + 1
+        rep.violation(sig, {'property': 'C16', 'macro_job': it, 'obligation': f['ob'], 'failure': f, 'confirmation': detail, 'kind': 'macro'})
     if tw[0] > 0 and tw[1] == 0:
         rep.broken.append({'why': 'no must-fail twin detected', 'twins': tw})
     evidence = {
@@ -256,7 +370,8 @@ def main(prop='C16'):
             'functions_encoded': ['ModelBuilder (add_var, with, with_all, minimize/maximize/satisfy, into_model, linearize, solve_with(Auto))', 'builder Expr operators / abs,min,max,all,any', 'BuilderSolution::{var_value,numeric_value,eval,value}',
                                   'RoocParser::parse_and_transform + Linearizer', 'PipeRunner [Compiler, PreModel, Model, LinearModel, AutoSolver]', 'RoocSolver::solve_using(auto_solver)'],
             'solver': 'z3 %s' % z3.get_version_string(), 'driver_build_s': round(build_s, 1), 'check_s': round(time.time() - t0, 1),
-            'outside': ['builder macros (need compile-time expansion per model)', 'constants supplied through the API'],
+            'macro_door': {'models': len(mitems), 'by_status': mstatus, 'what': 'two models written with vars! / constraint! / expr! (every declaration rule, scalar and array; every relation and logic rule) over a grid of bounds, right-hand sides, counts and directions, compared (variable set, domains through the projection equivalence) with the same model as source text'},
+            'outside': ['macro-written models other than the two of the driver (a macro needs compile-time expansion per model shape)', 'constants supplied through the API'],
         },
         'assumptions': ['the mapping of generator trees onto builder calls in driver/src/front.rs is the API a user would write'],
     }
